@@ -242,11 +242,11 @@ _TUNER_FIELD = {"kernel": "kernel", "bias": "bias", "activation": "activation",
                 "linear": "linear", "recurrent_activation": "recurrent_activation"}
 
 
-def check_trial(h, decisions, origin, pre=None):
+def check_trial(h, decisions, origin):
   """Runs one trial and all Part A oracles.  Returns (fails, labels, nontrivial,
   effective decisions)."""
   spec = h.spec
-  q, hp, exc = pre if pre is not None else h.trial(decisions)
+  q, hp, exc = h.trial(decisions)
   layers = _ref_layers(spec)
   keys, limit, qc = h.keys, h.limit, h.qc
   sel = spec["layer_indexes"]
@@ -334,6 +334,8 @@ def check_trial(h, decisions, origin, pre=None):
   eff = hp.effective()
   if exc is not None:
     sig = dict(core.exc_signature(exc), stale_shapes_expected=bool(stale))
+    if isinstance(exc, KeyError):
+      sig["arg"] = str(exc)[:60]
     fails.append(("quantize_raises", sig,
                   "%s: %s" % (type(exc).__name__, str(exc).replace("\n", " ")[:300])))
     labels.append("raised")
@@ -351,6 +353,7 @@ def check_trial(h, decisions, origin, pre=None):
   exp_shapes = h.twin_shapes(override) if override else h.ref_shapes
   any_q = False
   groups = {}
+  pending = []
   for i, (l, tl) in enumerate(zip(layers, tls)):
     cn = tl.__class__.__name__
     rc = h.ref_cls[i]
@@ -443,19 +446,19 @@ def check_trial(h, decisions, origin, pre=None):
           if printed == dflt:
             observed = "activation_bits_default"
       base = {"role": role, "host": hostkind, "match": kind}
+      # a linear Activation inside a pattern group: remember which weight
+      # strings print like it (classified after the loop)
+      klike = None
+      if hostkind == "Activation" and role == "linear" and kind == "pattern":
+        klike = set(s for s, _ in qc["kernel"]
+                    if _canon("QActivation", None, s) == printed)
       if not cands:
-        if observed == "other" and hostkind == "Activation" and kind == "pattern":
-          # is it the weight choice of the same pattern group?
-          ksec = qc["kernel"]
-          if any(_canon("QActivation", None, s) == printed for s, _ in ksec) and \
-              any(info[j]["key"] == key and layers[j]["k"] in R.WEIGHT_CLASSES
-                  for j in range(len(layers))):
-            observed = "group_kernel_choice"
-        fails.append(("from_config", dict(base, clause="not_from_config",
-                                          observed=observed),
-                      "layer %r (%s) %s quantizer %s is not the print of any "
-                      "string of section %r" % (tl.name, cn, role, printed,
-                                                R.ROLE_SECTION[role])))
+        pending.append(("from_config", dict(base, clause="not_from_config",
+                                            observed=observed),
+                        "layer %r (%s) %s quantizer %s is not the print of any "
+                        "string of section %r" % (tl.name, cn, role, printed,
+                                                  R.ROLE_SECTION[role]),
+                        key, klike))
         if observed == "activation_bits_default":
           labels.append("chosen_activation_ignored")
         continue
@@ -463,15 +466,23 @@ def check_trial(h, decisions, origin, pre=None):
       allowed = R.allowed_strings(section, entry)
       if not [s for s in cands if s in allowed]:
         bits = dict((s, b) for s, b in section)
-        fails.append(("limit", dict(base, observed=observed,
-                                    clause="not_in_list" if isinstance(entry, list)
-                                    else "over_limit"),
-                      "layer %r (%s) %s quantizer %s = config %r (bits %r) "
-                      "exceeds limit entry %r of key %r" %
-                      (tl.name, cn, role, printed, cands,
-                       [bits[s] for s in cands], entry, key)))
+        pending.append(("limit", dict(base, observed=observed,
+                                      clause="not_in_list" if isinstance(entry, list)
+                                      else "over_limit"),
+                        "layer %r (%s) %s quantizer %s = config %r (bits %r) "
+                        "exceeds limit entry %r of key %r" %
+                        (tl.name, cn, role, printed, cands,
+                         [bits[s] for s in cands], entry, key), key, klike))
       if kind == "pattern":
         groups.setdefault((key, role), []).append((tl.name, set(cands)))
+  for sc, sig, detail, key, klike in pending:
+    if klike:
+      for _, c in groups.get((key, "kernel"), []):
+        if c & klike:
+          sig = dict(sig, observed="group_kernel_choice")
+          detail += " -- it is the weight choice %r of the same group" % sorted(c & klike)
+          break
+    fails.append((sc, sig, detail))
   # ---- (d) one choice per pattern group and role ---------------------------
   for (key, role), members in sorted(groups.items()):
     if len(members) >= 2:
@@ -498,51 +509,50 @@ def _tick_trial(ctx, case, labels, nontrivial, eff):
     ctx.nontrivial.add(core.jhash(key))
 
 
-def run_dfs(ctx):
+def run_dfs(ctx, reserve=0.0):
+  """Exhaustive enumeration of the fixed specs.  spec["arities"] (the option
+  counts of the multi-option choice points, in call order) is bookkeeping for
+  decoding a leaf number into a decision list; a run whose recorded arities
+  differ is still judged by all oracles but the enumeration is then not
+  claimed exhaustive."""
   import tensorflow as tf  # pylint: disable=g-import-not-at-top
   specs = G.dfs_specs(ctx.tier)
-  ngroups = min(ctx.n, len(specs))
-  total_leaves = 0
-  all_product = True
+  leaves = []
   for si, spec in enumerate(specs):
-    if si % ngroups != ctx.idx % ngroups:
-      continue
-    rank = ctx.idx // ngroups
-    size = len([w for w in range(ctx.n) if w % ngroups == si % ngroups])
-    h = Harness(spec)
-    # learn the arities on the all-zero leaf
-    pre0 = h.trial([])
-    ar = pre0[1].arities()
-    nleaves = 1
-    for a in ar:
-      nleaves *= a
-    if rank == 0:
-      total_leaves += nleaves
-    for leaf in range(nleaves):
-      if leaf % size != rank:
-        continue
-      if ctx.time_left() <= 0:
-        ctx.labels["inconclusive_time"] += 1
-        all_product = False
-        break
-      dec = []
-      r = leaf
-      for a in ar:
-        dec.append(r % a)
-        r //= a
-      case = {"kind": "trial", "spec": spec, "decisions": dec}
-      fails, labels, nt, eff = check_trial(h, dec, "dfs",
-                                           pre=pre0 if leaf == 0 else None)
-      if eff != dec and not any(f[0] == "quantize_raises" for f in fails):
-        all_product = False
-        labels.append("tree_not_product")
-      _tick_trial(ctx, case, labels + ["dfs_spec_%d" % si], nt, eff)
-      for sc, sig, detail in fails:
-        ctx.fail(sc, sig, case, detail)
-    tf.keras.backend.clear_session()
-  if ctx.idx < ngroups:
-    ctx.info["dfs_leaves"] = total_leaves
-  return all_product
+    n = 1
+    for a in spec["arities"]:
+      n *= a
+    leaves += [(si, k) for k in range(n)]
+  if ctx.idx == 0:
+    ctx.info["dfs_leaves"] = len(leaves)
+  exhaustive = True
+  harness = {}
+  for si, leaf in ctx.shard(leaves):
+    if ctx.time_left() <= reserve:
+      ctx.labels["inconclusive_time"] += 1
+      exhaustive = False
+      break
+    full = specs[si]
+    spec = {k: v for k, v in full.items() if k != "arities"}
+    if si not in harness:
+      with contextlib.redirect_stdout(io.StringIO()):
+        harness[si] = Harness(spec)
+    dec = []
+    r = leaf
+    for a in full["arities"]:
+      dec.append(r % a)
+      r //= a
+    case = {"kind": "trial", "spec": spec, "decisions": dec}
+    fails, labels, nt, eff = check_trial(harness[si], dec, "dfs")
+    raised = any(f[0] == "quantize_raises" for f in fails)
+    if eff != dec and not raised:
+      exhaustive = False
+      labels.append("tree_shape_changed")
+    _tick_trial(ctx, case, labels + ["dfs_spec_%d" % si], nt, eff)
+    for sc, sig, detail in fails:
+      ctx.fail(sc, sig, case, detail)
+  tf.keras.backend.clear_session()
+  return exhaustive
 
 
 def oracle_trial(ctx, case, origin="hyp"):
@@ -681,6 +691,7 @@ def oracle_size(ctx, case):
     ref_model = G.build_size_model(case, strip=True)
     ff2 = mk()
     rsize = ff2.get_reference(ref_model)
+    ff2.get_trial(ref_model)          # a previous trial must not stick
     tsize = ff2.get_trial(model)
     dl = float(ff2.delta())
     rper, _ = R.size_model(_strip(case))
@@ -731,21 +742,19 @@ def _strip(case):
 
 
 def run(ctx):
-  exhaustive = run_dfs(ctx)
-  ctx.info["exhaustive"] = bool(exhaustive)
-  if ctx.idx == 0:
-    for spec in G.edge_specs():
-      case = {"kind": "trial", "spec": spec, "decisions": []}
-      for sc, sig, detail in oracle_trial(ctx, case, origin="edge"):
-        ctx.fail(sc, sig, case, detail)
-
-  nd = (4000 if ctx.quick else 100000) // ctx.n + 1
+  # Part B first (cheap, count-limited)
+  nd = (3200 if ctx.quick else 100000) // ctx.n + 1
   core.hyp_run(ctx, G.delta_case_st(), lambda c: oracle_delta(ctx, c), nd,
                name="c20_delta")
-  ns = (160 if ctx.quick else 3000) // ctx.n + 1
+  ns = (96 if ctx.quick else 3000) // ctx.n + 1
   core.hyp_run(ctx, G.size_case_st(), lambda c: oracle_size(ctx, c), ns,
                name="c20_size")
-  nt = (150 if ctx.quick else 5000) // ctx.n + 1
+  # Part A: exhaustive specs (keeps 30% of the budget for the sampled part)
+  exhaustive = run_dfs(ctx, reserve=0.3 * ctx.budget_s)
+  # core.merge_results sums numeric info: dfs_complete_workers == number of
+  # workers means every leaf of every fixed spec was judged.
+  ctx.info["dfs_complete_workers"] = 1 if exhaustive else 0
+  nt = (128 if ctx.quick else 4000) // ctx.n + 1
   core.hyp_run(ctx, G.trial_case_st(), lambda c: oracle_trial(ctx, c), nt,
                name="c20_trial")
 
